@@ -35,7 +35,13 @@ type evalCtx struct {
 	localsFirst bool
 	params      map[string]bool
 	iter        *Iter // map iterator of the enclosing range loop (for rangeidx)
+	qdepth      int   // nesting depth of with(): temporary names of bound variables depend on it, not on a global counter
 }
+
+// boundName: the temporary name of a bound variable while its quantifier is being built (Forall / Exists then give
+// it its canonical name). It depends only on the nesting depth, so that the same clause evaluated twice in the same
+// state yields the same term, inner quantifiers included.
+func (c *evalCtx) boundName(base string) string { return fmt.Sprintf("%s!b%d", base, c.qdepth) }
 
 type evalErr struct{ msg string }
 
@@ -45,6 +51,7 @@ func (c *evalCtx) errf(format string, a ...interface{}) {
 
 func (c *evalCtx) with(vars map[string]Value) *evalCtx {
 	n := *c
+	n.qdepth = c.qdepth + 1
 	n.vars = map[string]Value{}
 	n.bound = map[string]bool{}
 	for k, v := range c.vars {
@@ -613,7 +620,7 @@ func (c *evalCtx) callExpr(n *ast.CallExpr) Value {
 			}
 			return Lt(k, hi)
 		}
-		bv := Sym(fresh(id.Name), SInt)
+		bv := Sym(c.boundName(id.Name), SInt)
 		cc := c.with(map[string]Value{id.Name: Sc{bv}})
 		cc.facts = false
 		body := cc.term(arg(3))
@@ -650,7 +657,7 @@ func (c *evalCtx) callExpr(n *ast.CallExpr) Value {
 					}
 					continue
 				}
-				pv := Sym(fresh(id.Name+".abs"), SInt)
+				pv := Sym(c.boundName(id.Name+".abs"), SInt)
 				k := Sub(pv, shift)
 				cc2 := c.with(map[string]Value{id.Name: Sc{k}})
 				cc2.facts = false
@@ -680,7 +687,7 @@ func (c *evalCtx) callExpr(n *ast.CallExpr) Value {
 	case "forallkey":
 		// forallkey(k, body): k ranges over all values of a 12-byte array type (transaction ids)
 		id := arg(0).(*ast.Ident)
-		bv := Sym(fresh(id.Name), SArr)
+		bv := Sym(c.boundName(id.Name), SArr)
 		cc := c.with(map[string]Value{id.Name: Ar{A: bv, N: 12}})
 		cc.facts = false
 		body := cc.term(arg(1))
@@ -691,7 +698,7 @@ func (c *evalCtx) callExpr(n *ast.CallExpr) Value {
 		return Sc{Forall([]*Term{bv}, body, pats...)}
 	case "forallint":
 		id := arg(0).(*ast.Ident)
-		bv := Sym(fresh(id.Name), SInt)
+		bv := Sym(c.boundName(id.Name), SInt)
 		cc := c.with(map[string]Value{id.Name: Sc{bv}})
 		cc.facts = false
 		body := cc.term(arg(1))
@@ -970,7 +977,7 @@ func (c *evalCtx) contentEq(a Sl, ca *evalCtx, b Sl, cb *evalCtx, n *Term) *Term
 		return And(cs...)
 	}
 	// quantify over the absolute index into a's backing array (see the shift in forall())
-	pv := Sym(fresh("i.abs"), SInt)
+	pv := Sym(c.boundName("i.abs"), SInt)
 	l := Select(aa, pv)
 	r := Select(ba, Add(b.O, Sub(pv, a.O)))
 	return Forall([]*Term{pv}, Implies(And(Le(a.O, pv), Lt(pv, Add(a.O, n))), Eq(l, r)))
